@@ -101,7 +101,7 @@ PROPS['C07'] = dict(
     assumptions=["histories up to the end of the session"],
 )
 PROPS['C08'] = dict(
-    prop_modules=['Vise.Props.C08'], lean_targets=['Vise.Props.C08'], suites=['engine', 'cache'],
+    prop_modules=['Vise.Props.C08', 'Vise.Props.C08Engine'], lean_targets=['Vise.Props.C08', 'Vise.Props.C08Engine'], suites=['engine', 'cache'],
     compare={'engine': eng(['x', 'f', 'fin', 'p', 'i', 'fr', 'sz', 'u'])},
     trusted=ENGINE_TRUSTED + ["well-formedness (wf=1) is established by the generator's construction rules, not re-checked"],
     assumptions=["external results + capacity < 2^32 (EnvBounded)"],
